@@ -120,6 +120,7 @@ class Ctx:
         self.cache = {}
         self.timeouts = 0
         self.c19_seen = set()
+        self.cur_ops = []
         signal.signal(signal.SIGVTALRM, _alarm)
         # budget of one transition in CPU seconds of this process (not wall clock: a loaded machine must not look like a hang); the
         # universes with 2^16 / 2^24 slots copy and scan big tables legitimately
@@ -128,7 +129,7 @@ class Ctx:
     def close(self):
         signal.setitimer(signal.ITIMER_VIRTUAL, 0)
 
-    def apply(self, qf, o):
+    def apply(self, qf, o, ops=None):
         nm = o[0]
         if nm == "add":
             qf.add_alt(hval(self.hb, o[1]))
@@ -142,14 +143,19 @@ class Ctx:
                 second.add_alt(h)
             before = project(second)
             qf.merge(second)
+            if ops is not None and o[2] < 12 and len(ops) < 2:
+                # the merged-in filter lives on next to the receiver: it must stay the exact set it was (no state shared with the receiver)
+                ops.append((second, sorted(hval(self.hb, x) for x in o[1])))
             return before == project(second)
         return True
 
     def source(self, c, hist):
         key = (c["q"], c["auto"], repr(hist))
+        # the receiver and the filters merged into it are copied TOGETHER, so that state they (wrongly) share stays shared in the copy
         got = self.cache.get(key)
         if got is not None:
-            return copy.deepcopy(got)
+            qf, self.cur_ops = copy.deepcopy(got)
+            return qf
         # longest cached prefix
         qf = None
         k = len(hist)
@@ -157,19 +163,20 @@ class Ctx:
             k -= 1
             p = self.cache.get((c["q"], c["auto"], repr(hist[:k])))
             if p is not None:
-                qf = copy.deepcopy(p)
+                qf, self.cur_ops = copy.deepcopy(p)
                 break
         if qf is None:
             k = 0
             qf = self.QF(quotient=c["q"], auto_expand=c["auto"])
+            self.cur_ops = []
         try:
             for o in hist[k:]:
-                self.apply(qf, o)
+                self.apply(qf, o, self.cur_ops)
         except Exception:
             return None  # a call of the history raised: the property's antecedent is false
         if len(self.cache) > 20000:
             self.cache.clear()
-        self.cache[key] = copy.deepcopy(qf)
+        self.cache[key] = copy.deepcopy((qf, self.cur_ops))
         return qf
 
     def edge(self, e):
@@ -216,7 +223,7 @@ class Ctx:
         raised = None
         same2 = True
         try:
-            same2 = self.apply(qf, o)
+            same2 = self.apply(qf, o, self.cur_ops)
         except _Timeout:
             raise
         except Exception as exc:  # noqa
@@ -233,6 +240,15 @@ class Ctx:
             t.add_drift(ENGINE, {"cfg": c, "history": hist, "op": o, "raised": None, "expected_err": True})
             return
         t.check(same2, "C19", "C19.qf_merge_operand_unchanged", ENGINE, rp, sig)
+        for sec, want in self.cur_ops:
+            try:
+                okop = sorted(sec.get_hashes()) == want and sec.elements_added == len(want) and all(sec.check_alt(v) == (v in want) for v in self.vals)
+            except _Timeout:
+                raise
+            except Exception:  # noqa
+                okop = False
+            t.check(okop, "C04", "C04.merged_operand_stays_exact", ENGINE, lambda: rp(operand_expected=want), sig)
+            t.check(okop, "C19", "C19.qf_merge_operand_unchanged_later", ENGINE, lambda: rp(operand_expected=want), sig)
         expS = sorted(hval(hb, h) for h in exp["S"])
         es = set(expS)
         # membership of every hash of the universe
